@@ -19,6 +19,11 @@ RTC_NOTE = ("glue layer (methods on pyarrow-backed arrays, pandas / dask objects
 T1 = ("T1/T2 (mathematical facts, not proved here): for a valid polygon (holes inside the shell, wound opposite to it) a point on "
       "no ring is inside <=> winding number != 0, and the winding number is constant on a connected set meeting no ring")
 
+TI_NOTE = ("the traversal contract of _maybe_intersects_ranges assumes the tree invariant TI as its precondition (tree length 2*2^D-1, "
+           "page size >= 1, rows fit the leaves, every node box encloses the NaN-free rows among its keys); TI is established by "
+           "_build_hilbert_rtree, which is outside the subset - it is evaluated on real built trees by the bounded stand-in "
+           "(rtc rtree.tree-invariant), not proved; query coordinates are not NaN")
+
 PLAN = {
     'C01': dict(
         modules=['c14_measures', 'c15_orient', 'c16_isnull', 'c02_point', 'c13_bounds', 'c01_box', 'c01_lines', 'c01_polys', 'glue_rep', 'glue_polygon', 'glue_wrappers', 'glue_fixed'], level='other', stages=[RTC],
@@ -44,17 +49,21 @@ PLAN = {
                     "against the exact oracle (incl. points an ulp apart) by the run-time checked contract (bounded)",
     ),
     'C03': dict(
-        modules=['c03_rtree'], level='other', stages=[RTC],
-        trusted_base=COMMON_TRUST, assumptions=[MATH_ARITH, RTC_NOTE],
-        explanation="index arithmetic (_left_child/_right_child/_parent/_leaf_start/_start_index/_stop_index incl. "
-                    "termination) and the tiling lemmas are proved; build and query worklist (python lists of symbolic "
-                    "length) are outside the engine's subset and covered by the run-time checked API contract (bounded): "
-                    "random box sets incl. NaN rows, d in 1..3, page sizes 1..n+1, p in 1..31",
+        modules=['c03_rtree', 'c03_query'], level='other', stages=[RTC],
+        trusted_base=COMMON_TRUST, assumptions=[MATH_ARITH, RTC_NOTE, TI_NOTE],
+        explanation="proved: index arithmetic (_left_child/_right_child/_parent/_leaf_start/_start_index/_stop_index incl. "
+                    "termination), the tiling lemmas, and the query traversal _maybe_intersects_ranges for d in {1,2,3} "
+                    "(worklist and result lists of symbolic length): relative to the tree invariant TI (perfect tree; every "
+                    "node box encloses the NaN-free rows of its key range) no row meeting the query is lost, every NaN-free "
+                    "row of a covered range lies inside the query, and all recorded ranges are pairwise disjoint. TI itself "
+                    "(established by the build, which uses argsort / nanmin over list comprehensions - outside the subset), "
+                    "the assembly of row ids from the ranges and the API are covered by the run-time checked contracts "
+                    "(bounded): TI on real built trees, random box sets incl. NaN rows, d in 1..3, page sizes 1..n+1, p in 1..31",
     ),
     'C04': dict(
-        modules=['c13_bounds', 'c14_measures', 'c07_vector', 'c08_hilbert_distance', 'glue_rep', 'glue_misc'], level='other', stages=[RTC],
-        trusted_base=COMMON_TRUST, assumptions=[RTC_NOTE],
-        explanation="proved: _BaseCoordinateIndexer._get_bounds for every shape of key (scalar / slice with each combination of "
+        modules=['c13_bounds', 'c14_measures', 'c07_vector', 'c08_hilbert_distance', 'glue_rep', 'glue_misc', 'c03_rtree', 'c03_query'], level='other', stages=[RTC],
+        trusted_base=COMMON_TRUST, assumptions=[RTC_NOTE, TI_NOTE],
+        explanation="proved: the R-tree query traversal the indexed path relies on (_maybe_intersects_ranges: nothing lost, covered rows inside the box, no row twice; relative to the tree invariant); _BaseCoordinateIndexer._get_bounds for every shape of key (scalar / slice with each combination of "
                     "omitted ends, with and without an index; step rejected); the selection itself (_perform_get_item: "
                     "pandas iloc / mask, R-tree candidates) by the bounded stand-in against the exact C01 oracle",
     ),
@@ -89,7 +98,7 @@ PLAN = {
                     "dtype, result int64, caller's array unmodified)",
     ),
     'C08': dict(
-        modules=['c13_bounds', 'c14_measures', 'c07_vector', 'c08_hilbert_distance', 'glue_rep', 'glue_misc'], level='other', stages=[RTC],
+        modules=['c13_bounds', 'c14_measures', 'c07_vector', 'c08_hilbert_distance', 'glue_rep', 'glue_misc', 'c03_rtree', 'c03_query'], level='other', stages=[RTC],
         trusted_base=COMMON_TRUST + [NUMPY_TRUST],
         assumptions=[MATH_ARITH, "distances_from_coordinates is used through an assumed math-mode view of the "
                      "bit-vector function verified under C07", RTC_NOTE],
